@@ -173,7 +173,7 @@ def type_of(v: z3.ExprRef, ct: ClassTable) -> z3.ExprRef:
            z3.If(is_tup(v), ct.id("tuple"),
            z3.If(is_fun(v), ct.id("function"),
            z3.If(is_cls(v), ct.id("type"),
-                 class_of(addr(v))))))))))
+           z3.If(is_ref(v), class_of(addr(v)), ct.id("object"))))))))))
 
 
 def subclass_axioms(ct: ClassTable) -> list[z3.ExprRef]:
